@@ -35,7 +35,7 @@ NT = max(len(TAB[b]) for b in BASEKEYS[:NB])
 def h_hist(bi: int, c1: int, c2: int) -> bool:
   """
   pre: 0 <= bi < NB and 0 <= c1 < NT and 0 <= c2 < NT
-  pre: (c1 * NB + bi) % NPART == PART
+  pre: (c1 + c2 + bi) % NPART == PART
   post: _ == True
   """
   vp.enter("h")
